@@ -5,6 +5,6 @@ prop() { case "$1" in C01*) echo C01;; C06*) echo C06;; C14*) echo C14;; C15*) e
 for d in seeded/*/; do id=$(basename $d); tools/sensitivity.sh $(prop $id) $d/patch.diff | sed "s#patch.diff#$id#"; done
 for f in mutants/hand/*.diff; do tools/sensitivity.sh $(prop $(basename $f)) $f; done
 for f in mutants/C14/*.diff; do tools/sensitivity.sh C14 $f; done
-declare -A RP=( [a79d62c]=C14 [18700df]=C01 [48eacad]=C15 [7ff86e6]=C15 [e6afa78]=C15 [88ba5f5]=C16 [e2351e0]=C01 [ef648eb]=C01 [a88c5e6]=C01 [a916f0a]=C06 [05a33c0]=C06 [7fe8510]=C06 [0442d5b]=C01 [59459d2]=C01 [40bcdf1]=C18 [488fc60]=C18 [773c769]=C18 [bfd080f]=C18 [fd700b6]=C18 [e8548e6]=C15 [eb18a6e]=C06 [3ee2d9d]=C06 [336aab6]=C06 [a958b4a]=C01 [09e54d9]=C01 [030c906]=C01 [676ad5f]=C01 )
+declare -A RP=( [eb36c59]=C01 [a79d62c]=C14 [18700df]=C01 [48eacad]=C15 [7ff86e6]=C15 [e6afa78]=C15 [88ba5f5]=C16 [e2351e0]=C01 [ef648eb]=C01 [a88c5e6]=C01 [a916f0a]=C06 [05a33c0]=C06 [7fe8510]=C06 [0442d5b]=C01 [59459d2]=C01 [40bcdf1]=C18 [488fc60]=C18 [773c769]=C18 [bfd080f]=C18 [fd700b6]=C18 [e8548e6]=C15 [eb18a6e]=C06 [3ee2d9d]=C06 [336aab6]=C06 [a958b4a]=C01 [09e54d9]=C01 [030c906]=C01 [676ad5f]=C01 )
 for f in mutants/revfix/*.diff; do h=$(basename $f | cut -c1-7); tools/sensitivity.sh ${RP[$h]} $f; done
 echo REGRESS-DONE
